@@ -153,8 +153,24 @@ Definition enc_sop (o : sop) : sx :=
   | SFetch s r => L [I 2; sN s; sN r]
   | SUse id args => L [I 3; sN id; L (map enc_sval args)]
   end.
+(* reference result: forward2 after dropping fetches nobody uses; a fetch that is only used by updates
+   which forward2 erases is unused afterwards, the pass then prunes it too (and a later fetch becomes the
+   surviving first one): iterate *)
+Fixpoint ref_desym (fuel : nat) (decl : list nat) (ops : list sop) : list sop :=
+  let r := forward2 decl (prune_unused_reads ops) [] [] in
+  match fuel with
+  | O => prune_unused_reads r
+  | S f =>
+      let dead := flat_map (fun o => match o with SFetch _ x => if uses_fetch x r then [] else [x] | _ => [] end) r in
+      match dead with
+      | [] => r
+      | _ => ref_desym f decl (filter (fun o => match o with
+                                                | SFetch _ x => negb (existsb (Nat.eqb x) dead)
+                                                | _ => true end) ops)
+      end
+  end.
 Definition c16_desym (ops : list sop) : sx :=
-  match prune_definitions 40 ops with
+  match desym_block ops with
   | DLoop => L [I (-3)]
-  | DOk r => L [L (map enc_sop r); L (map enc_sop (forward ops [] [])); sB (wf_block ops [])]
+  | DOk r => L [L (map enc_sop r); L (map enc_sop (ref_desym 6 (declared ops) ops)); sB (wf_block ops [])]
   end.
